@@ -393,7 +393,9 @@ AllowAll == TrueV
 
 DeserializeJson(inp, o, lim, f) ==
   LET r == ParseVariant(inp, 1, o, lim, f, 0, FALSE)
-      trailing == r.code = "Ok" /\ r.v.t = "#" /\ ~(Cur(inp, r.p) = 0 \/ IsWs(Cur(inp, r.p)))
+      \* a top-level number is followed by the end of the input, whitespace or (when enabled) a comment
+      trailing == r.code = "Ok" /\ r.v.t = "#"
+                  /\ ~(Cur(inp, r.p) = 0 \/ IsWs(Cur(inp, r.p)) \/ (o.comments /\ Cur(inp, r.p) = 47))
       code == IF trailing THEN "InvalidInput" ELSE r.code
       \* bytes fetched: up to the look-ahead character when it was fetched, never beyond the end
       upto == IF r.ld THEN r.p ELSE r.p - 1
